@@ -2051,6 +2051,22 @@ func (r *Raft) installSnapshot(rpc RPC, req *InstallSnapshotRequest) {
 	r.setLatestConfiguration(reqConfiguration, reqConfigurationIndex)
 	r.setCommittedConfiguration(reqConfiguration, reqConfigurationIndex)
 
+	// The log may reach past the snapshot (its entries there were kept): a
+	// configuration entry among them is newer than the snapshot's.
+	if lastLogIdx, _ := r.getLastLog(); lastLogIdx > req.LastLogIndex {
+		for index := req.LastLogIndex + 1; index <= lastLogIdx; index++ {
+			var entry Log
+			if err := r.logs.GetLog(index, &entry); err != nil {
+				r.logger.Error("failed to get log", "index", index, "error", err)
+				break
+			}
+			if err := r.processConfigurationLogEntry(&entry); err != nil {
+				r.logger.Error("failed to process configuration entry", "index", index, "error", err)
+				break
+			}
+		}
+	}
+
 	// Compact the logs (a MonotonicLogStore was cleared above). Log any errors
 	// and continue.
 	if mlogs, ok := r.logs.(MonotonicLogStore); !ok || !mlogs.IsMonotonic() {
